@@ -29,6 +29,12 @@ theorem crashDisk_all (d : Disk) (ps : List Prim) (k t : Nat) (h : ps.length ≤
     | zero => simp at h
     | succ k => simp at h; simp [ih _ _ h]
 
+theorem crashDisk_append_zero (d : Disk) (a b : List Prim) (t : Nat) (h : a ≠ []) :
+    crashDisk d (a ++ b) 0 t = crashDisk d a 0 t := by
+  cases a with
+  | nil => exact absurd rfl h
+  | cons p a => simp
+
 /-- `Q` holds of the disk at every crash point of `ps` started on `d` (including "completed"). -/
 def CrashAll (Q : Disk → Prop) (d : Disk) (ps : List Prim) : Prop := ∀ k t, Q (crashDisk d ps k t)
 
